@@ -226,6 +226,9 @@ func (a *asActor) OnPreRestart(ctx vivid.RestartContext) error {
 	if a.c.hooks&8 != 0 {
 		panic("scripted pre-restart panic")
 	}
+	if a.c.hooks&32 != 0 {
+		return fmt.Errorf("scripted pre-restart failure") // recorded by the library; the restart goes on
+	}
 	return nil
 }
 
@@ -1257,7 +1260,7 @@ func (e *asEngine) randomScenario(c *Ctx) {
 				case x < 7:
 					acts = append(acts, fmt.Sprintf("tell.%s.%d", targets[r.Intn(len(targets))], 1+r.Intn(3)))
 				case x < 10 && trig != "kill" && trig != "killed":
-					acts = append(acts, fmt.Sprintf("spawn.%s.%d.%d.%s.%d", names[r.Intn(len(names))], 1+r.Intn(4), r.Intn(3), []string{"-", "3", "1", "5", "15", "6", "2", "4", "31"}[r.Intn(9)], []int{0, 0, 0, 1, 2, 4, 16}[r.Intn(7)]))
+					acts = append(acts, fmt.Sprintf("spawn.%s.%d.%d.%s.%d", names[r.Intn(len(names))], 1+r.Intn(4), r.Intn(3), []string{"-", "3", "1", "5", "15", "6", "2", "4", "31"}[r.Intn(9)], []int{0, 0, 0, 1, 2, 4, 16, 8, 32}[r.Intn(9)]))
 				case x < 12:
 					acts = append(acts, "kill."+targets[r.Intn(len(targets))])
 				case x < 13:
@@ -1342,7 +1345,7 @@ func (e *asEngine) drain(c *Ctx, max int) []string {
 // failing message, and probes sent after quiescence (C05 C08 C09).
 func (e *asEngine) supervisionMatrix(c *Ctx) {
 	sites := []string{"launch", "user", "okilled"}
-	hooksList := []int{0, 1, 2, 4}
+	hooksList := []int{0, 1, 2, 4, 8, 32}
 	reps := 1
 	if c.Thorough() {
 		reps = 6
@@ -1509,7 +1512,7 @@ func (e *asEngine) stashScenarios(c *Ctx) {
 	}
 	for rep := 0; rep < reps; rep++ {
 		for _, dec := range []string{"1", "2", "3", "4", "5", "6", "k", "p"} {
-			for _, hooks := range []int{0, 1, 2, 4} {
+			for _, hooks := range []int{0, 1, 2, 4, 8, 32} {
 				if hooks != 0 && dec != "1" && dec != "2" {
 					continue
 				}
